@@ -264,7 +264,12 @@ func cmdCheck(args []string) {
 		all = true
 	}
 	dir, _ := os.MkdirTemp("", "spokvc-"+id+"-")
-	defer os.RemoveAll(dir)
+	if kd := os.Getenv("SPOKVC_KEEPDIR"); kd != "" {
+		dir = kd
+		os.MkdirAll(dir, 0o755)
+	} else {
+		defer os.RemoveAll(dir)
+	}
 	t0 := time.Now()
 	dischargeAll(w, obls, dir, timeout, all, runtime.NumCPU())
 	solveS := time.Since(t0).Seconds()
@@ -275,6 +280,9 @@ func cmdCheck(args []string) {
 	var failed []*Obligation
 	var solverTime float64
 	for _, o := range obls {
+		if os.Getenv("SPOKVC_DBG") != "" && strings.Contains(o.Name, os.Getenv("SPOKVC_DBG")) {
+			fmt.Fprintln(os.Stderr, "DBG", o.Name, o.Status, o.Solver, o.Detail, "goal:", o.Goal[:min(len(o.Goal), 200)])
+		}
 		if o.Status == "discharged" {
 			nDis++
 			name := o.Solver
